@@ -81,10 +81,12 @@ class Taint:
                     self.to.add(('ext', f.name, n)); self.to.add(('extdeep', f.name, n))
                 if p['ty'] == '%' + DATA_STRUCT + '*':
                     self.to.add(('ext', f.name, n))
+        lazy = {r.fn.name: r for r in P.roles('lazy')}
         changed = True
         while changed:
             changed = False
             for f in P.defined.values():
+                if f.name in lazy: continue      # summarised at its call sites (out <- in), so that one caller's secrets do not taint another caller's buffer
                 for i in f.all_insts():
                     dst = ('v', f.name, i.id)
                     op = i.op
@@ -108,7 +110,11 @@ class Taint:
                     elif op == 'call':
                         if P.is_dbg(i): continue
                         t = P.call_target(i)
-                        if t[0] == 'direct' and t[1] in P.defined:
+                        if t[0] == 'direct' and t[1] in lazy:
+                            r_ = lazy[t[1]]
+                            if self._objs_tainted(f, i.ops[r_.args['src']]) or self._vt(f, i.ops[r_.args['src']]):
+                                if self._taint_objs(f, i.ops[r_.args['out']], i): changed = True
+                        elif t[0] == 'direct' and t[1] in P.defined:
                             for n, a in enumerate(i.ops):
                                 if self._vt(f, a) and ('p', t[1], n) not in self.tv:
                                     self.tv.add(('p', t[1], n)); changed = True
